@@ -52,7 +52,17 @@ TIterPipe ==
               \cup Flg(R.fill = "empty" /\ R.r.got # R.burst, "not_one_byte_per_delivery")
               \cup Flg(R.r.yielded # 1, "delivered_signal_not_reported")
 
-TraceSpec == TInit /\ [][TPipe \/ TPipeReject \/ TIterPipe]_tvars
+\* Tear-down of an iterator instance (backend.rs Handle / DeliveryState): the write end is dropped
+\* once, and only after the last action that writes to it is gone - a signal delivered while it is
+\* being dropped writes nowhere (the probe re-uses the descriptor number for an unrelated socket).
+TIterTeardown ==
+    /\ l <= Len(Rec) /\ R.e = "iter_teardown" /\ l' = l + 1
+    /\ viol' = viol
+         \cup Flg(R.status # "exited:0", "probe_died")
+         \cup Flg(R.status = "exited:0" /\ R.r.drops # 1, "write_end_not_dropped_exactly_once")
+         \cup Flg(R.status = "exited:0" /\ R.r.stray # 0, "written_to_after_close")
+
+TraceSpec == TInit /\ [][TPipe \/ TPipeReject \/ TIterPipe \/ TIterTeardown]_tvars
 TraceAccepted ==
     LET d == TLCGet("stats").diameter IN
     IF d - 1 = Len(Rec) THEN TRUE ELSE Print(<<"TRACE_REJECTED", d, Rec[d]>>, FALSE)
